@@ -219,14 +219,20 @@ theorem entriesFrom_sum (dc : Compression) (l : List KV) : ∀ off, ∀ e ∈ en
     · exact UInt64.toNat_lt _
     · exact ih _ e he
 
+theorem loadEntries_of_open (comps : Nat → Compression) (file : Bytes) (c : Compression) (st : Bytes)
+    (h : openSeq comps file = .ok (c, st)) : loadEntries comps file = loadEntriesS c (st.length + 1) st := by
+  unfold loadEntries; rw [h]
+
 theorem loadEntries_table (comps : Nat → Compression) (cfg : SstCfg) (kvs : List KV)
     (hc : CompsOk comps cfg) (hf : FitsKV cfg kvs) :
     loadEntries comps (indexFileOf cfg kvs) = .ok (loadedEntries cfg kvs) := by
   obtain ⟨_, hci, _, hli, _, hict⟩ := hc
   obtain ⟨h1, h2, _⟩ := hf
-  unfold loadEntries indexFileOf
-  rw [openSeq_file comps cfg.ict _ hict, hci]
-  simp only
+  have hopen : openSeq comps (indexFileOf cfg kvs) =
+      .ok (cfg.ic, encAll cfg.ic ((entriesOf cfg.dc kvs).map indexRecOf)) := by
+    have := openSeq_file comps cfg.ict (encAll cfg.ic ((entriesOf cfg.dc kvs).map indexRecOf)) hict
+    rw [hci] at this; exact this
+  rw [loadEntries_of_open comps _ _ _ hopen]
   have hlen := length_le_encAll cfg.ic ((entriesOf cfg.dc kvs).map indexRecOf)
   rw [loadEntriesS_enc cfg.ic hli (entriesOf cfg.dc kvs) _ (by simp only [List.length_map] at hlen; omega)]
   · unfold loadedEntries
@@ -259,30 +265,36 @@ theorem getValue_table (cfg : SstCfg) (kvs : List KV) (hl : LawfulC cfg.dc) (hf 
   rw [← hlen] at ht
   exact getValue_trip cfg.dc hl kvs _ (fun p hp => (hf.1 p hp).1) skip t ht
 
+theorem openTable_of (comps : Nat → Compression) (k : LoaderKind) (o : ReadOpts) (t : Table)
+    (bloom : Option (Bytes → Bool)) (md : Meta) (idx : Index) (dc : Compression)
+    (h1 : decMeta t.metaf = .ok md) (h2 : loadIndex comps k t.index = .ok idx) (h3 : md.version ≠ 0)
+    (h4 : openMmap comps t.data = .ok dc) (h5 : validateData dc t.data idx.all = .ok ()) :
+    openTable comps k o t bloom =
+      .ok ({ data := t.data, dc := dc, bloom := bloom, skipHashOnRead := o.skipHashOnRead, md := md }, idx) := by
+  unfold openTable
+  rw [h1, h2]
+  simp only [h3, if_false, h4, h5]
+  cases o.skipHashOnLoad <;> rfl
+
 theorem openTable_ok (comps : Nat → Compression) (cfg : SstCfg) (kvs : List KV)
     (hc : CompsOk comps cfg) (hf : FitsKV cfg kvs) (k : LoaderKind) (o : ReadOpts) (bloom : Option (Bytes → Bool))
     (idx : Index) (hload : loadIndex comps k (indexFileOf cfg kvs) = .ok idx)
     (hall : idx.all = (loadedEntries cfg kvs, .done)) :
     openTable comps k o (tableOf cfg kvs) bloom = .ok (readerOf cfg kvs o bloom, idx) := by
   obtain ⟨hcd, _, hld, _, hdct, _⟩ := hc
-  unfold openTable tableOf
-  simp only [decMeta_metaOf cfg kvs hf, hload]
-  have hv : (metaOf cfg kvs).norm.version = 0 ↔ False := by simp [Meta.norm, metaOf, sstVersion]
-  simp only [hv, if_false]
-  unfold dataFileOf
-  rw [openMmap_file comps cfg.dct _ hdct, hcd]
-  simp only
-  cases hsk : o.skipHashOnLoad with
-  | true => simp [readerOf, dataFileOf]
-  | false =>
-    have hval : validateData cfg.dc (dataFileOf cfg kvs) idx.all = .ok () := by
-      unfold validateData
-      rw [hall]
-      simp only
-      unfold loadedEntries
-      rw [scanWith_good cfg.dc _ false (trips cfg kvs) (fun t ht => getValue_table cfg kvs hld hf false t ht)]
-    unfold dataFileOf at hval
-    simp [hval, readerOf, dataFileOf]
+  have hv : (metaOf cfg kvs).norm.version ≠ 0 := by simp [Meta.norm, metaOf, sstVersion]
+  have hmm : openMmap comps (tableOf cfg kvs).data = .ok cfg.dc := by
+    have := openMmap_file comps cfg.dct (encAll cfg.dc (kvs.map (·.2))) hdct
+    rw [hcd] at this; exact this
+  have hval : validateData cfg.dc (tableOf cfg kvs).data idx.all = .ok () := by
+    unfold validateData
+    rw [hall]
+    show (match scanWith cfg.dc (dataFileOf cfg kvs) false (loadedEntries cfg kvs) .done with
+          | (_, .done) => Except.ok ()
+          | (_, .err e) => .error e) = _
+    unfold loadedEntries
+    rw [scanWith_good cfg.dc _ false (trips cfg kvs) (fun t ht => getValue_table cfg kvs hld hf false t ht)]
+  exact openTable_of comps k o (tableOf cfg kvs) bloom _ idx cfg.dc (decMeta_metaOf cfg kvs hf) hload hv hmm hval
 
 /-! ## index answers → reader answers -/
 
@@ -292,7 +304,7 @@ structure IdxRefines (P : Bytes → Prop) (idx : Index) (E : List IEntry) : Prop
   get : ∀ k, P k → idx.get k = (idx, some (getRes (specGet keyCmp E (some k))))
   contains : ∀ k, P k → idx.contains k = (idx, some (.ok (specGet keyCmp E (some k)).isSome))
   all : idx.all = (E, .done)
-  from : ∀ k, idx.from k = (idx, .ok (specFrom keyCmp E (some k), .done))
+  from_ : ∀ k, idx.from k = (idx, .ok (specFrom keyCmp E (some k), .done))
   between : ∀ lo hi, idx.between lo hi = (idx, betweenRes (specBetween keyCmp E (some lo) (some hi)))
 
 theorem specGet_E (T : List Trip) (k : Bytes) :
@@ -322,5 +334,192 @@ theorem filter_kvs (T : List Trip) (q : Bytes → Bool) :
     ((T.map Trip.kv).filter (fun p => q p.1)).map normKV = (T.filter fun t => q t.1).map Trip.out := by
   rw [List.filter_map, List.map_map]
   rfl
+
+theorem keyCmp_norm_some (a b : Bytes) : keyCmp (normKey a) (some b) = bytesCmp a b := by
+  simp [keyCmp, normKey_getD]
+
+theorem getWith_spec (r : Reader) (T : List Trip)
+    (hv : ∀ t ∈ T, getValueAtOffset r.dc r.data t.2.2 r.skipHashOnRead = .ok t.2.1) (k : Bytes) :
+    r.getWith (getRes (specGet keyCmp (T.map Trip.ie) (some k))) = specGetRes (T.map Trip.kv) k := by
+  unfold specGetRes
+  rw [specGet_E, specGet_kvs]
+  cases hfd : T.find? (fun t => bytesCmp k t.1 == .eq) with
+  | none => rfl
+  | some t =>
+    have ht : t ∈ T := List.mem_of_find?_eq_some hfd
+    simp [getRes, Reader.getWith, hv t ht]
+
+theorem isSome_spec (T : List Trip) (k : Bytes) :
+    (specGet keyCmp (T.map Trip.ie) (some k)).isSome = (specGet bytesCmp (T.map Trip.kv) k).isSome := by
+  rw [specGet_E, specGet_kvs]; simp
+
+theorem scanIter_filter (r : Reader) (T : List Trip)
+    (hv : ∀ t ∈ T, getValueAtOffset r.dc r.data t.2.2 r.skipHashOnRead = .ok t.2.1) (q : Bytes → Bool) :
+    r.scanIter ((T.filter fun t => q t.1).map Trip.ie, .done) = ((T.filter fun t => q t.1).map Trip.out, .done) := by
+  unfold Reader.scanIter
+  exact scanWith_good r.dc r.data r.skipHashOnRead _ (fun t ht => hv t (List.mem_filter.mp ht).1)
+
+theorem fullScan_of (comps : Nat → Compression) (r : Reader) (it : Iter) (c : Compression) (st : Bytes)
+    (h : openSeq comps r.data = .ok (c, st)) :
+    r.fullScan comps it = .ok (fullScanS c r.skipHashOnRead it.1 it.2 st) := by
+  unfold Reader.fullScan; rw [h]
+
+/-- index refinement + the table files ⇒ the reader answers like the sorted map -/
+theorem reads_as_map (comps : Nat → Compression) (cfg : SstCfg) (kvs : List KV)
+    (hc : CompsOk comps cfg) (hf : FitsKV cfg kvs) (o : ReadOpts) (bloom : Option (Bytes → Bool))
+    (hb : BloomOk bloom kvs) (P : Bytes → Prop) (idx : Index)
+    (hr : IdxRefines P idx (loadedEntries cfg kvs)) :
+    ReadsAsMap comps P (readerOf cfg kvs o bloom) idx kvs := by
+  obtain ⟨hcd, _, hld, _, hdct, _⟩ := hc
+  have hv : ∀ t ∈ trips cfg kvs, getValueAtOffset (readerOf cfg kvs o bloom).dc (readerOf cfg kvs o bloom).data t.2.2
+      (readerOf cfg kvs o bloom).skipHashOnRead = .ok t.2.1 :=
+    fun t ht => getValue_table cfg kvs hld hf _ t ht
+  have hE : loadedEntries cfg kvs = (trips cfg kvs).map Trip.ie := rfl
+  have hsome : ∀ k, (specGet keyCmp (loadedEntries cfg kvs) (some k)).isSome = (specGet bytesCmp kvs k).isSome := by
+    intro k
+    have := isSome_spec (trips cfg kvs) k
+    rwa [trips_kv] at this
+  constructor
+  · intro k hk
+    unfold Reader.get
+    rw [hr.get k hk]
+    have := getWith_spec (readerOf cfg kvs o bloom) (trips cfg kvs) hv k
+    rw [trips_kv] at this
+    simp only [Option.map_some, hE, this]
+  · intro k hk
+    unfold Reader.contains
+    cases hbl : (readerOf cfg kvs o bloom).bloom with
+    | none => simp only [hr.contains k hk, hsome]
+    | some bf =>
+      simp only
+      by_cases hbf : bf k = true
+      · simp only [hbf, if_true, hr.contains k hk, hsome]
+      · have hno : (specGet bytesCmp kvs k).isSome = false := by
+          cases hg : specGet bytesCmp kvs k with
+          | none => rfl
+          | some v =>
+            exfalso
+            unfold specGet at hg
+            cases hfd : kvs.find? (fun p => bytesCmp k p.1 == .eq) with
+            | none => rw [hfd] at hg; cases hg
+            | some p =>
+              have hp : p ∈ kvs := List.mem_of_find?_eq_some hfd
+              have heq : bytesCmp k p.1 = .eq := by
+                have := List.find?_some hfd; simpa using this
+              have : k = p.1 := (bytesCmp_eq_iff _ _).mp heq
+              have hbt := hb bf hbl p hp
+              rw [← this] at hbt
+              exact hbf hbt
+        simp only [hbf, hno]
+        rfl
+  · unfold Reader.scan
+    rw [hr.all]
+    have hopen : openSeq comps (readerOf cfg kvs o bloom).data = .ok (cfg.dc, encAll cfg.dc (kvs.map (·.2))) := by
+      have := openSeq_file comps cfg.dct (encAll cfg.dc (kvs.map (·.2))) hdct
+      rw [hcd] at this; exact this
+    rw [fullScan_of comps _ _ _ _ hopen]
+    have := fullScanS_trip cfg.dc hld (readerOf cfg kvs o bloom).skipHashOnRead kvs fileHeaderSize
+      (fun p hp => (hf.1 p hp).1)
+    simp only [hE, trips]
+    rw [this]
+  · intro k
+    unfold Reader.scanFrom
+    rw [hr.from_ k]
+    simp only [Except.map]
+    unfold specScanFrom SST.specFrom
+    rw [hE, filter_E (trips cfg kvs) (fun b => bytesCmp k b != .gt) (fun g => keyCmp (some k) g != .gt)
+      (fun b => by simp [keyCmp_some_norm])]
+    rw [scanIter_filter _ _ hv (fun b => bytesCmp k b != .gt)]
+    have := filter_kvs (trips cfg kvs) (fun b => bytesCmp k b != .gt)
+    rw [trips_kv] at this
+    rw [this]
+  · intro lo hi
+    unfold Reader.scanRange
+    rw [hr.between lo hi]
+    unfold specScanRange SST.specBetween
+    have hk : keyCmp (some lo) (some hi) = bytesCmp lo hi := rfl
+    rw [hk]
+    by_cases hgt : (bytesCmp lo hi == .gt) = true
+    · simp only [hgt, if_true, betweenRes, Except.map]
+    · simp only [hgt, if_false, betweenRes, Except.map, Bool.false_eq_true]
+      rw [hE, filter_E (trips cfg kvs) (fun b => bytesCmp lo b != .gt && bytesCmp b hi != .gt)
+        (fun g => keyCmp (some lo) g != .gt && keyCmp g (some hi) != .gt)
+        (fun b => by simp [keyCmp_some_norm, keyCmp_norm_some])]
+      rw [scanIter_filter _ _ hv (fun b => bytesCmp lo b != .gt && bytesCmp b hi != .gt)]
+      have := filter_kvs (trips cfg kvs) (fun b => bytesCmp lo b != .gt && bytesCmp b hi != .gt)
+      rw [trips_kv] at this
+      rw [this]
+
+/-! ## the three in-memory loaders -/
+
+theorem slice_table (comps : Nat → Compression) (cfg : SstCfg) (kvs : List KV)
+    (hc : CompsOk comps cfg) (hf : FitsKV cfg kvs) (hs : StrictAsc bytesCmp kvs) :
+    ∃ idx, loadIndex comps .slice (indexFileOf cfg kvs) = .ok idx ∧
+      IdxRefines (fun _ => True) idx (loadedEntries cfg kvs) := by
+  obtain ⟨h1, h2, h3, h4, h5⟩ := slice_refines _ (loadedEntries_strictAsc cfg kvs hs)
+  refine ⟨.slice (loadedEntries cfg kvs), ?_, ?_⟩
+  · simp [loadIndex, loadEntries_table comps cfg kvs hc hf, Except.map]
+  · exact ⟨fun k _ => by simp [Index.get, h1], fun k _ => by simp [Index.contains, h2], by simp [Index.all, h3],
+      fun k => by simp [Index.from, h4], fun lo hi => by simp [Index.between, h5]⟩
+
+theorem skip_table (comps : Nat → Compression) (cfg : SstCfg) (kvs : List KV)
+    (hc : CompsOk comps cfg) (hf : FitsKV cfg kvs) (hs : StrictAsc bytesCmp kvs)
+    (heights : List Nat) (hh : ∀ h ∈ heights, 1 ≤ h) :
+    ∃ idx, loadIndex comps (.skip heights) (indexFileOf cfg kvs) = .ok idx ∧
+      IdxRefines (fun _ => True) idx (loadedEntries cfg kvs) := by
+  obtain ⟨sl, h0, h1, h2, h3, h4, h5⟩ := skip_refines _ (loadedEntries_strictAsc cfg kvs hs) heights hh
+  refine ⟨.skip sl, ?_, ?_⟩
+  · simp [loadIndex, loadEntries_table comps cfg kvs hc hf, h0, Except.map]
+  · exact ⟨fun k _ => by simp [Index.get, h1], fun k _ => by simp [Index.contains, h2], by simp [Index.all, h3],
+      fun k => by simp [Index.from, h4], fun lo hi => by simp [Index.between, h5]⟩
+
+theorem loadedEntries_keys (cfg : SstCfg) (kvs : List KV) :
+    (loadedEntries cfg kvs).map (fun e => e.1.getD []) = kvs.map (·.1) := by
+  unfold loadedEntries
+  rw [List.map_map]
+  have : ((fun e : IEntry => e.1.getD []) ∘ Trip.ie) = (fun p : KV => p.1) ∘ Trip.kv := by
+    funext t; simp [Trip.ie, Trip.kv, normKey_getD]
+  rw [this, ← List.map_map, trips_kv]
+
+theorem map_table (comps : Nat → Compression) (cfg : SstCfg) (kvs : List KV)
+    (hc : CompsOk comps cfg) (hf : FitsKV cfg kvs) (hs : StrictAsc bytesCmp kvs)
+    (n : Nat) (hn : ∀ p ∈ kvs, p.1.length ≤ n) :
+    ∃ idx, loadIndex comps (.map n) (indexFileOf cfg kvs) = .ok idx ∧
+      IdxRefines (fun k => PadInjective n (kvs.map (·.1)) k) idx (loadedEntries cfg kvs) := by
+  have hsE := loadedEntries_strictAsc cfg kvs hs
+  obtain ⟨_, _, h3, h4, h5⟩ := slice_refines _ hsE
+  have hok : mapLoadOk n (loadedEntries cfg kvs) = true := by
+    unfold mapLoadOk
+    rw [List.all_eq_true]
+    intro e he
+    have : e.1.getD [] ∈ (loadedEntries cfg kvs).map (fun e => e.1.getD []) := List.mem_map_of_mem he
+    rw [loadedEntries_keys] at this
+    obtain ⟨p, hp, hpe⟩ := List.mem_map.mp this
+    simpa [← hpe] using hn p hp
+  refine ⟨.map n (loadedEntries cfg kvs), ?_, ?_⟩
+  · simp [loadIndex, loadEntries_table comps cfg kvs hc hf, hok]
+  · refine ⟨?_, ?_, by simp [Index.all, h3], fun k => by simp [Index.from, h4],
+      fun lo hi => by simp [Index.between, h5]⟩
+    · intro k hk
+      rw [← loadedEntries_keys cfg kvs] at hk
+      obtain ⟨_, hg, _⟩ := map_refines n _ hsE k hk
+      simp [Index.get, hg]
+    · intro k hk
+      rw [← loadedEntries_keys cfg kvs] at hk
+      obtain ⟨_, _, hcn⟩ := map_refines n _ hsE k hk
+      simp [Index.contains, hcn]
+
+/-- a table written from an ascending list, opened with a loader whose index refines the sorted map of the
+loaded entries, reads back as the sorted map of the list -/
+theorem table_reads (comps : Nat → Compression) (cfg : SstCfg) (kvs : List KV)
+    (hcmp : cfg.cmp = bytesCmp) (hc : CompsOk comps cfg) (hf : FitsKV cfg kvs) (hs : StrictAsc bytesCmp kvs)
+    (k : LoaderKind) (o : ReadOpts) (bloom : Option (Bytes → Bool)) (hb : BloomOk bloom kvs)
+    (P : Bytes → Prop)
+    (hidx : ∃ idx, loadIndex comps k (indexFileOf cfg kvs) = .ok idx ∧ IdxRefines P idx (loadedEntries cfg kvs)) :
+    ∃ r idx, openTable comps k o (writeTable cfg kvs) bloom = .ok (r, idx) ∧ ReadsAsMap comps P r idx kvs := by
+  obtain ⟨idx, hload, href⟩ := hidx
+  refine ⟨readerOf cfg kvs o bloom, idx, ?_, reads_as_map comps cfg kvs hc hf o bloom hb P idx href⟩
+  rw [writeTable_eq cfg kvs (by rw [hcmp]; exact hs)]
+  exact openTable_ok comps cfg kvs hc hf k o bloom idx hload href.all
 
 end SST.Proofs.Sst
